@@ -210,6 +210,24 @@ static void operators()
         }
         // the selector of the fuzzy controller returns exactly these functions
     }
+    // the parametrised compensatory operator: (ab)^(1-gamma) * (a+b-ab)^gamma for gamma in [0,1]; gamma = 1/2 is a_fuzzy_equ
+    for (double g : {0.0, 0.25, 0.5, 0.75, 1.0})
+    {
+        for (int i = 0; i <= G; ++i)
+        {
+            for (int j = 0; j <= G; ++j)
+            {
+                a_real a = (a_real)i / G, b = (a_real)j / G, v = a_fuzzy_equ_((a_real)g, a, b);
+                ++n; nt += i && j;
+                std::string in = "{\"op\":\"equ_\",\"gamma\":" + num(g) + ",\"a\":" + num((double)a) + ",\"b\":" + num((double)b) + "}";
+                L prod = (L)a * (L)b, sum = (L)a + (L)b - prod, want = powl(prod, 1 - (L)g) * powl(sum, (L)g);
+                if (!(v >= 0 && v <= 1 + 4 * (a_real)EPS)) { R.viol("fuzzy|equ_|range", "a_fuzzy_equ_ = " + num((double)v) + " is outside [0,1] or not a number", in); continue; }
+                if (v != a_fuzzy_equ_((a_real)g, b, a)) { R.viol("fuzzy|equ_|commutative", "a_fuzzy_equ_ is not commutative", in); continue; }
+                if (!(std::fabs((double)((L)v - want)) <= 8 * EPS)) { R.viol("fuzzy|equ_|definition", "a_fuzzy_equ_(" + num(g) + "; " + num((double)a) + ", " + num((double)b) + ") = " + num((double)v) + ", defined as " + num((double)want), in); continue; }
+                if (g == 0.5 && !(std::fabs((double)v - (double)a_fuzzy_equ(a, b)) <= 8 * EPS)) { R.viol("fuzzy|equ_|half", "a_fuzzy_equ_(1/2, a, b) differs from a_fuzzy_equ(a, b)", in); continue; }
+            }
+        }
+    }
     static const unsigned SEL[7] = {A_PID_FUZZY_CAP, A_PID_FUZZY_CAP_ALGEBRA, A_PID_FUZZY_CAP_BOUNDED, A_PID_FUZZY_CUP, A_PID_FUZZY_CUP_ALGEBRA, A_PID_FUZZY_CUP_BOUNDED, A_PID_FUZZY_EQU};
     for (int k = 0; k < 7; ++k)
     {
@@ -218,7 +236,7 @@ static void operators()
         for (int i = 0; i <= G && same; ++i) { for (int j = 0; j <= G; ++j) { ++n; if (f((a_real)i / G, (a_real)j / G) != ops[k].f((a_real)i / G, (a_real)j / G)) { same = false; break; } } }
         if (!same) { R.viol(std::string("fuzzy|selector|") + ops[k].name, "a_pid_fuzzy_opr does not return the operator it names", std::to_string(SEL[k])); }
     }
-    R.part("seven operators + not on all pairs from {0,1/16,...,1}^2: range, commutativity, monotonicity in each argument, cap<=min, cup>=max, equ between, boundary cases, definition, selector", n, nt);
+    R.part("seven operators + not + the parametrised compensatory operator (5 values of gamma) on all pairs from {0,1/16,...,1}^2: range, commutativity, monotonicity in each argument, cap<=min, cup>=max, equ between, boundary cases, definition, selector", n, nt);
 }
 
 // ---------------------------------------------------------------- inference
@@ -232,12 +250,15 @@ static const a_real m5e[] = {A_MF_TRAP, -9, -9, -2, -1, TRI, -2, -1, 0, TRI, -1,
 static const a_real m5k[] = {-2, -2, -1, 0, 0, -2, -1, -1, 0, 1, -1, -1, 0, 1, 1, -1, 0, 1, 1, 2, 0, 0, 1, 2, 2};
 static const a_real w3e[] = {TRI, -4, -1, 2, TRI, -3, 0, 3, TRI, -2, 1, 4};
 static const a_real w3k[] = {-1, 0, 1, 0, 1, 2, 1, 2, 3};
+// a table that is not sorted by position (left shoulder, right shoulder, middle): the active sets need not be neighbours in table order
+static const a_real u3e[] = {TRI, -1, -1, 0, TRI, 0, 1, 1, TRI, -1, 0, 1};
+static const a_real u3k[] = {-2, 3, 0, 1, -1, 2, 4, 0, -3};
 static const a_real g3e[] = {A_MF_GAUSS, 1, -1, A_MF_GBELL, 1, 2, 0, A_MF_GAUSS, 1, 1};
 static const a_real m7e[] = {TRI, -1.5, -1.5, -1, TRI, -1.5, -1, -.5, TRI, -1, -.5, 0, TRI, -.5, 0, .5, TRI, 0, .5, 1, TRI, .5, 1, 1.5, TRI, 1, 1.5, 1.5};
 static const a_real m7kp[] = {-3, -3, -2, -2, -1, 0, 0, -3, -3, -2, -1, -1, 0, 1, -2, -2, -2, -1, 0, 1, 1, -2, -2, -1, 0, 1, 2, 2, -1, -1, 0, 1, 1, 2, 2, -1, 0, 1, 2, 2, 2, 3, 0, 0, 2, 2, 2, 3, 3};
 static const a_real mixe[] = {A_MF_LINZ, -2, -1, A_MF_PI, -2, -1, 1, 2, A_MF_LINS, 1, 2}; // ramps at both ends, pi-shaped centre
 struct Base { const char *name; unsigned n, active; const a_real *me, *mec, *kp, *ki, *kd; };
-static const Base BASES[7] = {
+static const Base BASES[8] = {
     {"3x3 shoulder triangles (test/pid_fuzzy.h)", 3, 2, m3e, m3ec, m3kp, m3ki, m3kd},
     {"5x5 trapezoid shoulders", 5, 2, m5e, m5e, m5k, m5k, nullptr},
     {"3x3 wide triangles, 3 active", 3, 3, w3e, w3e, w3k, nullptr, w3k},
@@ -245,6 +266,7 @@ static const Base BASES[7] = {
     {"7x7 triangles (test/pid_fuzzy.h)", 7, 2, m7e, m7e, m7kp, m7kp, m7kp},
     {"3x3 ramps + pi", 3, 2, mixe, mixe, w3k, w3k, w3k},
     {"3x3 shoulder triangles without a kp table", 3, 2, m3e, m3ec, nullptr, m3ki, m3kd},
+    {"3x3 unsorted table (left, right, middle)", 3, 2, u3e, u3e, u3k, u3k, u3k},
 };
 static const unsigned OPRS[7] = {A_PID_FUZZY_EQU, A_PID_FUZZY_CAP, A_PID_FUZZY_CAP_ALGEBRA, A_PID_FUZZY_CAP_BOUNDED, A_PID_FUZZY_CUP, A_PID_FUZZY_CUP_ALGEBRA, A_PID_FUZZY_CUP_BOUNDED};
 static const char *OPRN[7] = {"equ", "cap", "cap_algebra", "cap_bounded", "cup", "cup_algebra", "cup_bounded"};
@@ -329,7 +351,7 @@ static void inference(bool thorough)
             }
         }
     }
-    R.part(std::string("gain scheduling: 7 rule bases (shoulder triangles, trapezoid shoulders, 3 simultaneously active triangles, gaussian/bell, 7x7, ramps+pi, one without a kp table; each of kp/ki/kd absent in one base) x 7 operators x ") + std::to_string(G) + "x" + std::to_string(G) + " (e, ec) lattice spanning beyond the universe; buffer of exactly A_PID_FUZZY_BFUZZ(active) bytes between canaries", n, nt);
+    R.part(std::string("gain scheduling: 8 rule bases (an unsorted table whose active sets are not neighbours, shoulder triangles, trapezoid shoulders, 3 simultaneously active triangles, gaussian/bell, 7x7, ramps+pi, one without a kp table; each of kp/ki/kd absent in one base) x 7 operators x ") + std::to_string(G) + "x" + std::to_string(G) + " (e, ec) lattice spanning beyond the universe; buffer of exactly A_PID_FUZZY_BFUZZ(active) bytes between canaries", n, nt);
     R.sample("{\"base\":\"3x3 shoulder triangles\",\"operator\":\"cap_bounded\",\"e\":0.3,\"ec\":0.8,\"note\":\"every pairwise bounded product is 0: total firing strength 0, gains must stay finite\"}");
 }
 
